@@ -9,7 +9,7 @@ namespace Yae
 
 /-- the `nud` half of `pExpr`: the sub-term `left` of the model, with `t` the token just eaten
 and `i` the cursor after it -/
-def nudRes (env : PEnv) (f : Nat) (t : Token) (i : Nat) (bp : Float) (nud : Nud) : PRes Expr :=
+def nudRes (env : PEnv) (f : Nat) (t : Token) (i : Nat) (bp : BP) (nud : Nud) : PRes Expr :=
 match nud with
 | .ident => .ok (.ident t.pos t.lexeme, i)
 | .true_ => .ok (.bool t.pos true, i)
@@ -108,7 +108,7 @@ match nud with
 
 /-- the `led` half of `pInfix`: the sub-term `res` of the model, with `t` the operator token just
 eaten and `i` the cursor after it -/
-def ledRes (env : PEnv) (f : Nat) (left : Expr) (t : Token) (i : Nat) (bp : Float) (led : Led) :
+def ledRes (env : PEnv) (f : Nat) (left : Expr) (t : Token) (i : Nat) (bp : BP) (led : Led) :
     PRes Expr :=
 match led with
 | .binaryL =>
@@ -172,7 +172,7 @@ match led with
       | .error e => .error e
       | .ok rg => .ok (.subscript rg t.pos.col left ix none, i)
 
-theorem pExpr_succ (env : PEnv) (f : Nat) (rbp : Float) (i : Nat) :
+theorem pExpr_succ (env : PEnv) (f : Nat) (rbp : BP) (i : Nat) :
     pExpr env (f + 1) rbp i =
       match tableLookup (env.peek i).kind env.g.prefixs with
       | none => .error .syntax
@@ -181,7 +181,7 @@ theorem pExpr_succ (env : PEnv) (f : Nat) (rbp : Float) (i : Nat) :
         | .error e => .error e
         | .ok (left, j) => pInfix env f left rbp j := rfl
 
-theorem pInfix_succ (env : PEnv) (f : Nat) (left : Expr) (rbp : Float) (i : Nat) :
+theorem pInfix_succ (env : PEnv) (f : Nat) (left : Expr) (rbp : BP) (i : Nat) :
     pInfix env (f + 1) left rbp i =
       if env.g.infixLbp (env.peek i).kind > rbp then
         match tableLookup (env.peek i).kind env.g.infixs with
